@@ -5,7 +5,7 @@ D="$1"; shift
 mkdir -p /var/tmp/scratch/neg
 for f in "$D"/p*.diff; do
   n=$(basename "$(dirname "$D")")-$(basename "$f" .diff)
-  ( MUT_LINES=6 "$(dirname "$0")/mutant_run.sh" "$f" "$@" > /var/tmp/scratch/neg/$n.txt 2>&1 ) &
+  ( MUT_LINES=${MUT_LINES:-6} "$(dirname "$0")/mutant_run.sh" "$f" "$@" > /var/tmp/scratch/neg/$n.txt 2>&1 ) &
 done
 wait
 for f in "$D"/p*.diff; do
